@@ -288,6 +288,8 @@ WATER_BASES = [
     _b(soil="ClayLoam", iwc="Depth", irr="int3", field="mulch", off=True, win="w1", word="normal"),
     _b(soil="Sand", iwc="FC", irr="sched", field="srinhb", word="wet", fallow="mulch"),
     _b(soil="custom3", iwc="SAT", irr="smt100e70", field="bunds50w500", word="mix", gw="1.5", dz="deep30", crop="potato.2"),
+    # bunds in the season only, off-season simulated: the day after harvest is a bund-removal day with water still ponded
+    _b(soil="Clay", iwc="SAT", field="bunds200", fallow="none", off=True, win="w1", word="wet", crop="rice.2", irr="const40e40"),
 ]
 
 
